@@ -182,9 +182,10 @@ class PipeEndpoint():
         return self._pipe.send(obj)
 
     def get(self, block=True, timeout=None):
-        if not block:
+        if not block or timeout is not None:
+            # (like queue.Queue.get: a timeout only matters for a blocking get)
             try:
-                if not self._pipe.poll():
+                if not self._pipe.poll(timeout if block else 0):
                     raise queue.Empty
             except (BrokenPipeError, OSError):
                 raise queue.Empty
